@@ -8,6 +8,7 @@ import (
 	"math/rand"
 	"os"
 	"sort"
+	"strings"
 	"sync"
 	"sync/atomic"
 	"time"
@@ -301,9 +302,13 @@ func (w *World) tickDone() {
 // callInvoke / callReturn track refresh epochs: maximal intervals during
 // which at least one Refresh call (explicit or the poller's) is in flight.
 func (w *World) callInvoke() int64 {
+	idle := w.FlightsIdle()
 	w.trMu.Lock()
 	defer w.trMu.Unlock()
-	if w.callsInFlight == 0 {
+	// A round started by an earlier call can outlive that call (its caller's
+	// context ended, or the caller has returned while the round still applies
+	// its results). A new epoch begins only when no round can be running.
+	if w.callsInFlight == 0 && idle {
 		w.epochStart = w.stamp.Load()
 	}
 	w.callsInFlight++
@@ -316,6 +321,26 @@ func (w *World) callReturn() {
 	w.trMu.Unlock()
 }
 
+// FlightsIdle reports whether no refresh round can be in progress: no
+// goroutine spawned by the code under test (rounds, the poller) is parked
+// anywhere and no request is in flight at the service.
+func (w *World) FlightsIdle() bool {
+	all, _ := w.S.Tickets()
+	for _, tk := range all {
+		if strings.Contains(tk.Task.Name, "/") {
+			return false
+		}
+	}
+	w.Svc.mu.Lock()
+	defer w.Svc.mu.Unlock()
+	for _, r := range w.Svc.Reqs {
+		if r.End == 0 {
+			return false
+		}
+	}
+	return true
+}
+
 // EpochStart returns the start stamp of the current refresh epoch.
 func (w *World) EpochStart() int64 { w.trMu.Lock(); defer w.trMu.Unlock(); return w.epochStart }
 
@@ -325,6 +350,10 @@ func (w *World) InFlight() int { w.trMu.Lock(); defer w.trMu.Unlock(); return w.
 // Finish tears the world down: the service fails everything, contexts are
 // cancelled, the store is closed, every parked goroutine is drained.
 func (w *World) Finish() {
+	if os.Getenv("VERIF_DEBUG") != "" {
+		w.Trace = append(w.Trace, "---- store log ----")
+		w.Trace = append(w.Trace, w.Logs...)
+	}
 	w.S.Closing()
 	w.S.SetFree(true)
 	w.Svc.Kill()
